@@ -1185,8 +1185,12 @@ def m_hash(I, c, args, fr):
     hash_value(I, args[0], args[1])
     return UNIT
 
-@model('mem::discriminant', 'intrinsics::discriminant_value')
+@model('mem::discriminant', 'discriminant')
 def m_discriminant(I, c, args, fr):
+    return Adt('Discriminant', None, 0, [deref(args[0]).vidx])
+
+@model('intrinsics::discriminant_value', 'discriminant_value')
+def m_discriminant_value(I, c, args, fr):
     return deref(args[0]).vidx
 
 # ============================================================================ Option / Result
